@@ -307,6 +307,10 @@ class NP:
       return TH.row(st.term, i)
     if r >= 2 and kinds[0] == 'all' and kinds[1] == 'int' and all(k == 'all' for k in kinds[2:]):
       return TH.take1(st.term, pattern[1][1])
+    if r == 1 and kinds == ['slice']:
+      sl = pattern[0][1]
+      if sl.lo is None and sl.step is None and sl.hi is not None and isinstance(sl.hi, VInt):
+        return TH.slice0(st.term, sl.hi.t)                 # a[:n]
     if r == 1 and kinds == ['arr']:
       ist = cx.st(pattern[0][1])
       if ist.term is not None and ist.kind == 'i' and ist.shape.concrete:
